@@ -132,6 +132,10 @@ def run(tier):
     v.cov["trusted_base"] = ["TLC evaluation of Relations.tla/Costs.tla/Dcop.tla/AlgoMon.tla/Dsa.tla", "vlib/cases.py", "vlib/simrt.py"]
     from ..dsamodel import model_part
     model_part(v, tier, ["MovesAreBestResponses", "ValueInDomain"], {"C06_dsa_move_not_best_response"}, ["dsa"], seed_off=6, stop=3 if quick else 4)
+    # A-DSA (periodic actions): Adsa.tla over every order of starts, timer firings and deliveries up to MaxTicks ticks per computation,
+    # every transition replayed on the real ADsaComputation objects
+    from ..adsamodel import model_part as adsa_part
+    adsa_part(v, tier, {"C06_dsa_move_not_best_response"}, ["adsa"], seed_off=6)
     return v.finish()
 
 
